@@ -94,10 +94,18 @@ func (f *Dolist) Call(s *slip.Scope, args slip.List, depth int) slip.Object {
 					}
 					return tr
 				case *GoTo:
-					for i++; i < len(args); i++ {
-						if args[i] == tr.Tag {
+					// The body is an implicit tagbody. A tag that is not in it
+					// belongs to an enclosing tagbody.
+					found := false
+					for j := 1; j < len(args); j++ {
+						if args[j] == tr.Tag {
+							i = j
+							found = true
 							break
 						}
+					}
+					if !found {
+						return tr
 					}
 				}
 			}
